@@ -1,17 +1,12 @@
 #!/bin/bash
-# Runs every seeded change against the quick check of its property and writes seeded/RESULTS.md
+# Runs every seeded change against the quick check of its property (or the checks listed in seeded/<name>/checks, in the
+# tier named in seeded/<name>/tier) and writes seeded/RESULTS.md.  PAR changes run at a time (default 3).
 cd /verif
 out=seeded/RESULTS.md
-{
-echo "# Seeded changes vs. checks"
-echo
-echo "Produced by tools/seeded_results.sh: each patch is applied in a scratch worktree of /repo HEAD, the quick check of the"
-echo "owning property is run against it with --repo, the worktree is removed. rc=1 = caught (VIOLATION), rc=0 = missed."
-echo
-echo "| change | property | what was changed | needs | check result | signatures |"
-echo "|---|---|---|---|---|---|"
-for d in seeded/*/; do
-  name=$(basename $d)
+rows=/tmp/seedrows; rm -rf $rows; mkdir -p $rows
+row() {
+  d=seeded/$1/
+  name=$1
   prop=${name%%-*}
   checks=$prop; [ -f $d/checks ] && checks=$(cat $d/checks)
   tier=quick; [ -f $d/tier ] && tier=$(cat $d/tier)
@@ -19,11 +14,23 @@ for d in seeded/*/; do
   rc=0; echo "$lines" | grep -q " rc=2 " && rc=2; echo "$lines" | grep -q " rc=1 " && rc=1
   t=$(echo "$lines" | sed 's/.* time=\([0-9]*s\) .*/\1/' | tr '\n' '+' | sed 's/+$//')
   sigs=$(echo "$lines" | sed 's/^[^ ]* \([^ ]*\) .*sigs: /\1: /' | tr '\n' ' ')
-  summary=$(/venv/bin/python -c "import json;m=json.load(open('$d/meta.json'));print(m.get('summary','').replace('|','/')[:160])")
-  needs=$(/venv/bin/python -c "import json;m=json.load(open('$d/meta.json'));print(str(m.get('needs','')).replace('|','/')[:160])")
+  summary=$(/venv/bin/python -c "import json;m=json.load(open('$d/meta.json'));print(m.get('summary','').replace('|','/').replace('\n',' ')[:160])")
+  needs=$(/venv/bin/python -c "import json;m=json.load(open('$d/meta.json'));print(str(m.get('needs','')).replace('|','/').replace('\n',' ')[:160])")
   res="MISSED"; [ "$rc" = "1" ] && res="caught ($t, $tier tier)"; [ "$rc" = "2" ] && res="harness problem"
-  echo "| $name | $prop | $summary | $needs | $res | $sigs |"
-done
+  echo "| $name | $prop | $summary | $needs | $res | $sigs |" > /tmp/seedrows/$name.row
+}
+export -f row
+ls seeded | grep -E '^C[0-9]+-m[0-9]+$' | xargs -P ${PAR:-3} -I{} bash -c 'row {}'
+{
+echo "# Seeded changes vs. checks"
+echo
+echo "Produced by tools/seeded_results.sh: each patch is applied in a scratch worktree of /repo HEAD, the quick check of the"
+echo "owning property (or the checks / tier named in seeded/<name>/checks, seeded/<name>/tier) is run against it with --repo, the"
+echo "worktree is removed. rc=1 = caught (VIOLATION), rc=0 = missed."
+echo
+echo "| change | property | what was changed | needs | check result | signatures |"
+echo "|---|---|---|---|---|---|"
+for n in $(ls seeded | grep -E '^C[0-9]+-m[0-9]+$' | sort -t- -k1,1 -k2.2n); do cat $rows/$n.row; done
 } > $out.tmp
 mv $out.tmp $out
-cat $out | cut -c1-200
+grep -c "caught" $out; grep -E "MISSED|harness problem" $out | cut -c1-200
